@@ -59,6 +59,62 @@ pub fn run(tier: &str) -> i32 {
         let _ = p;
     }
     let wit = run_passes(&mut o, &ps);
+    // crash pre-states: the journal of a short history cut at every k-th byte (torn tail), then the superseding suffix
+    {
+        use crate::crash::*;
+        use crate::explore::fresh_dir;
+        let shapes: Vec<Vec<&str>> = vec![vec!["ins x.a=1", "batch [x.ab=2 y.a=1]"], vec!["ins x.a=1", "rem x.a", "ins y.b=2"], vec!["batch [x.a=1 y.a=1]", "clear x", "ins x.b=1"]];
+        let stride = if tier == "quick" { 3 } else { 1 };
+        let mut cases = 0u64;
+        for sh in &shapes {
+            let ops: Vec<Op> = sh.iter().map(|s| Op::parse(s).unwrap()).collect();
+            let dir = fresh_dir();
+            let Ok((w, hist)) = record(dir.clone(), Cfg::default2(), &ops) else { continue };
+            let img = fresh_dir();
+            copy_tree(&dir, &img).expect("image");
+            let j = active_journal(&img).expect("journal");
+            let used = used_len(&j).unwrap_or(0);
+            let full = std::fs::metadata(&j).map(|m| m.len()).unwrap_or(0);
+            let jname = j.file_name().unwrap().to_string_lossy().into_owned();
+            drop(w);
+            let cuts: Vec<u64> = (0..=used).step_by(stride).collect();
+            let findings = std::sync::Mutex::new(vec![]);
+            let n = std::sync::atomic::AtomicU64::new(0);
+            crate::par::par_for(cuts.len() * 2, threads(), Instant::now() + Duration::from_secs_f64(if tier == "quick" { 6.0 } else { 200.0 }), |i| {
+                let c = cuts[i / 2];
+                let pad = i % 2 == 1;
+                let d2 = fresh_dir();
+                if copy_tree(&img, &d2).is_err() || cut_file(&d2.join(&jname), c, if pad { Some(full) } else { None }).is_err() {
+                    let _ = std::fs::remove_dir_all(&d2);
+                    return;
+                }
+                if let Recovered::Ok { content, inconsistent: None } = recover_and_observe(&d2, &Cfg::default2()) {
+                    if hist.states.contains(&content) {
+                        n.fetch_add(1, std::sync::atomic::Ordering::Relaxed);
+                        if let Err((clause, detail)) = crate::props::c02::suffix_check(&d2, &Cfg::default2(), &content) {
+                            findings.lock().unwrap().push(Finding {
+                                sig: format!("crash-prestate.{clause}|{}", if pad { "zero-padded" } else { "eof" }),
+                                engine: "E2-bytecut+suffix".into(),
+                                variant: json!({"cut": c, "pad": pad}),
+                                program: sh.iter().map(|s| s.to_string()).collect(),
+                                clause: format!("crash-prestate.{clause}"),
+                                detail: format!("journal cut at byte {c}, recovered {}, then overwrite/remove/reopen: {detail}", show_content(&content)),
+                            });
+                        }
+                    }
+                }
+                let _ = std::fs::remove_dir_all(&d2);
+            });
+            cases += n.load(std::sync::atomic::Ordering::Relaxed);
+            let _ = std::fs::remove_dir_all(&img);
+            let mut f = findings.into_inner().unwrap();
+            f.sort_by_key(|x| (x.sig.clone(), x.variant["cut"].as_u64().unwrap_or(0)));
+            o.findings.extend(f);
+        }
+        o.cov("crash_prestates_with_superseding_suffix", json!(cases));
+        o.cov_add("states", cases);
+        o.cov_add("traces_validated_against_impl", cases);
+    }
     o.cov("rule", json!("pre-reopen histories = every enabled program up to the per-pass depth over {insert, remove, batch, clear, ingestion, rotate, every queued worker message (+journal rotation), major compaction, create/delete keyspace}, from the empty database and from prepared states (data in last level + L0 + memtable, tombstone over value, two sealed journals with a lagging keyspace, meta keyspace holding the highest seqno); after each history the oracle reopens 1-3 times and after every reopen checks: next seqno > every seqno in every user keyspace's memtables/tables and in every journal record still on disk, a snapshot taken right after open equals the handles' view, every overwrite replaces and every remove hides what was recovered (all read methods), a new snapshot shows recovered data plus the new writes, a created/deleted keyspace stays so; then a final reopen must reproduce the model. Reopen fidelity itself is re-synchronised (C04's clause)."));
     o.assumptions = vec![
         "the model is re-synchronised to the implementation after each reopen (differences there belong to C04/C02 and are counted, not judged here)".into(),
